@@ -52,6 +52,14 @@ func SetRefreshTimers(freq, minRate time.Duration) (time.Duration, time.Duration
 	return sutredis.VerifSetSlotsRefreshTimers(freq, minRate)
 }
 
+// ProductionRefreshRate runs the periodic slot refresh at its production rate (2 min, spacing 5 s) until the returned function
+// is called. For checks on a cluster whose layout never changes: a CLUSTER NODES request every 50 ms on a random backend
+// connection flushes whatever an earlier request left behind there and would hide a stuck reply.
+func ProductionRefreshRate() func() {
+	of, om := SetRefreshTimers(2*time.Minute, 5*time.Second)
+	return func() { SetRefreshTimers(of, om) }
+}
+
 // RedisConfig builds a service config for the redis processor.
 func RedisConfig(o ProxyOpts) *service.Config {
 	ct := o.ConnectTimeout
